@@ -52,6 +52,6 @@ WellFormedExpr(e) ==
     [] OTHER -> TRUE
 \* the mutations of the conformance cases: each produces a text that the grammar or a static rule forbids
 Mutations == {"drop_close_brace", "drop_close_paren", "drop_close_bracket", "double_pipe", "trailing_op", "trailing_junk", "unterminated_string",
-              "bad_regex", "bad_label_regex", "unwrap_in_log", "dup_label_format", "empty_selector_matcher", "quantile_no_param", "param_not_allowed",
+              "bad_regex", "bad_label_regex", "unwrap_in_log", "dup_label_format", "dup_label_format_mixed", "dup_label_format_mixed2", "dup_label_format_tmpl", "empty_selector_matcher", "quantile_no_param", "param_not_allowed",
               "topk_no_param", "topk_zero", "sort_grouping", "range_grouping", "unwrap_missing", "unwrap_forbidden", "missing_range"}
 =============================================================================
